@@ -59,6 +59,13 @@ MC_MODELS = {
                  "apalache": ["--cinit=ConstInit", "--init=Init", "--next=Next", "--inv=IndInv", "--length=0"]},
     "len_step": {"module": "LenMachine.tla", "timeout": 1800,
                  "apalache": ["--cinit=ConstInit", "--init=IndInit", "--next=Next", "--inv=IndInv", "--length=1"]},
+    # the position arithmetic of the encoder with octet values forgotten: TLC with scaled-down limits (both
+    # refusals reached) and Apalache: Safe is INDUCTIVE for writers, AVP counts and payloads of any size
+    "enclen_tlc": {"module": "../EncLenMachine.tla", "cfg": "MCEncLenMachine.cfg"},
+    "enclen_base": {"module": "EncLenMachine.tla", "timeout": 1800,
+                    "apalache": ["--cinit=ConstInit", "--init=Init", "--next=Next", "--inv=IndInv", "--length=0"]},
+    "enclen_step": {"module": "EncLenMachine.tla", "timeout": 1800,
+                    "apalache": ["--cinit=ConstInit", "--init=IndInit", "--next=Next", "--inv=IndInv", "--length=1"]},
 }
 
 DEC_MODELS = ["dec_framing", "dec_ctllen", "dec_avprec", "dec_kinds", "dec_loop3", "dec_loop4", "dec_data"]
@@ -118,7 +125,7 @@ PROPS = {
         "assumptions": COMMON_ASSUMPTIONS,
     },
     "C07": {
-        "mc": ["enc_sizes", "enc_avps", "enc_huge"], "gen": ["encode", "encode_seq", "small_values"],
+        "mc": ["enc_sizes", "enc_avps", "enc_huge", "enclen_tlc", "enclen_base", "enclen_step"], "gen": ["encode", "encode_seq", "small_values"],
         "rule": "size boundaries of the 10-bit AVP length (values of 1015..1019, 2000 octets) and of the 16-bit message "
                 "length (65 534..65 536 octets), plus seeded random values; panic iff the specification's encoder refuses; "
                 "an independent walk over the emitted length fields; get_length against the emitted size",
@@ -133,7 +140,7 @@ PROPS = {
         "assumptions": COMMON_ASSUMPTIONS,
     },
     "C09": {
-        "mc": ["enc_avps", "enc_msgs", "enc_sizes", "session_q", "session_t"], "gen": ["encode", "encode_seq", "many_avps"],
+        "mc": ["enc_avps", "enc_msgs", "enc_sizes", "session_q", "session_t", "enclen_tlc", "enclen_base", "enclen_step"], "gen": ["encode", "encode_seq", "many_avps"],
         "rule": "encodes into writers pre-filled with 0..300 octets (VecWriter and a monitoring writer that logs every "
                 "append and positional overwrite), sequences of 1..5 values into one writer; TLC: OnlyAppend / "
                 "PatchInsideFrame / AppendOrPatch on the Encoder machine, WriterIsConcat on the session machine",
